@@ -2,7 +2,6 @@ use crate::define::Result;
 use crate::error::Error;
 use crate::value::Value;
 use once_cell::sync::OnceCell;
-use rust_decimal::prelude::FromPrimitive;
 use rust_decimal::Decimal;
 use std::collections::HashMap;
 use std::sync::{Arc, Mutex};
@@ -64,16 +63,19 @@ impl InfixOpManager {
                 SETTER,
                 RIGHT,
                 Arc::new(move |left, right| {
-                    let (mut a, b) = (left.decimal()?, right.decimal()?);
-                    match op {
-                        "+=" => a += b,
-                        "-=" => a -= b,
-                        "*=" => a *= b,
-                        "/=" => a /= b,
-                        "%=" => a %= b,
-                        _ => (),
+                    let (a, b) = (left.decimal()?, right.decimal()?);
+                    let ans = match op {
+                        "+=" => a.checked_add(b),
+                        "-=" => a.checked_sub(b),
+                        "*=" => a.checked_mul(b),
+                        "/=" => a.checked_div(b),
+                        "%=" => a.checked_rem(b),
+                        _ => None,
+                    };
+                    match ans {
+                        Some(v) => Ok(Value::Number(v)),
+                        None => Err(Error::ParamInvalid()),
                     }
-                    Ok(Value::Number(a))
                 }),
             );
         }
@@ -87,8 +89,16 @@ impl InfixOpManager {
                 Arc::new(move |left, right| {
                     let (mut a, b) = (left.integer()?, right.integer()?);
                     match op {
-                        "<<=" => a <<= b,
-                        ">>=" => a >>= b,
+                        "<<=" | ">>=" => {
+                            if b < 0 || b > 63 {
+                                return Err(Error::ParamInvalid());
+                            }
+                            if op == "<<=" {
+                                a <<= b
+                            } else {
+                                a >>= b
+                            }
+                        }
                         "&=" => a &= b,
                         "^=" => a ^= b,
                         "|=" => a |= b,
@@ -168,8 +178,16 @@ impl InfixOpManager {
                         "|" => a |= b,
                         "^" => a ^= b,
                         "&" => a &= b,
-                        "<<" => a <<= b,
-                        ">>" => a >>= b,
+                        "<<" | ">>" => {
+                            if b < 0 || b > 63 {
+                                return Err(Error::ParamInvalid());
+                            }
+                            if op == "<<" {
+                                a <<= b
+                            } else {
+                                a >>= b
+                            }
+                        }
                         _ => (),
                     }
                     Ok(Value::from(a))
@@ -184,16 +202,19 @@ impl InfixOpManager {
                 CALC,
                 LEFT,
                 Arc::new(move |left, right| {
-                    let (mut a, b) = (left.decimal()?, right.decimal()?);
-                    match op {
-                        "+" => a += b,
-                        "-" => a -= b,
-                        "*" => a *= b,
-                        "/" => a /= b,
-                        "%" => a %= b,
-                        _ => (),
+                    let (a, b) = (left.decimal()?, right.decimal()?);
+                    let ans = match op {
+                        "+" => a.checked_add(b),
+                        "-" => a.checked_sub(b),
+                        "*" => a.checked_mul(b),
+                        "/" => a.checked_div(b),
+                        "%" => a.checked_rem(b),
+                        _ => None,
+                    };
+                    match ans {
+                        Some(v) => Ok(Value::from(v)),
+                        None => Err(Error::ParamInvalid()),
                     }
-                    Ok(Value::from(a))
                 }),
             );
         }
@@ -410,7 +431,10 @@ impl PostfixOpManager {
             "++",
             Arc::new(|param| {
                 let a = match param {
-                    Value::Number(a) => a + Decimal::from_i32(1).unwrap(),
+                    Value::Number(a) => match a.checked_add(Decimal::ONE) {
+                        Some(v) => v,
+                        None => return Err(Error::ParamInvalid()),
+                    },
                     _ => return Err(Error::ShouldBeNumber()),
                 };
                 Ok(Value::Number(a))
@@ -421,7 +445,10 @@ impl PostfixOpManager {
             "--",
             Arc::new(|param| {
                 let a = match param {
-                    Value::Number(a) => a - Decimal::from_i32(1).unwrap(),
+                    Value::Number(a) => match a.checked_sub(Decimal::ONE) {
+                        Some(v) => v,
+                        None => return Err(Error::ParamInvalid()),
+                    },
                     _ => return Err(Error::ShouldBeNumber()),
                 };
                 Ok(Value::Number(a))
